@@ -594,6 +594,9 @@ func (l *layer2) ctxAware(p *plan) bool {
 func (l *layer2) classify(id *ident, c *callRec, ctx context.Context, doneAtInv, doneAtRet bool) {
 	r, p, w := l.r, c.p, id.w
 	name := entryNames[p.entry]
+	if l.kind == wrapSQL {
+		l.sqlInferRequest(id, c)
+	}
 	switch {
 	case c.servedBy != nil && c.servedBy != id:
 		r.Fail("wrong-handler", "call %d of %s was served by the handler of %s", c.id, id.desc, c.servedBy.desc)
@@ -604,6 +607,10 @@ func (l *layer2) classify(id *ident, c *callRec, ctx context.Context, doneAtInv,
 	case doneAtInv && l.ctxAware(p) && (c.reqRuns > 0 || c.gotErr != ctx.Err()):
 		r.Fail("done-context-not-short-circuited", "call %d (%s) with an already done context: handler runs=%d returned %v, want %v and nothing run",
 			c.id, name, c.reqRuns, c.gotErr, ctx.Err())
+	case c.reqRuns == 1 && l.kind == wrapSQL && errors.Is(c.gotErr, breaker.ErrServiceUnavailable):
+		x := c.x.(*sqlObs)
+		r.Fail("rejected-but-ran", "call %d (%s) was rejected by the breaker (%v), yet %d driver calls (%d of them connection attempts) were made on its behalf: a rejected call must not reach the database",
+			c.id, name, c.gotErr, x.drvCalls, x.opens)
 	case c.reqRuns == 1:
 		c.class = clAdmitted
 		w.nAdmitted++
@@ -701,6 +708,10 @@ func bodyLayer2(r *simrt.Run, tier string) {
 		if ph.kind == phSustained && l.kind == wrapREST && t.Intn(4) == 3 {
 			ph.panicsOnly = true
 		}
+		if ph.kind == phSustained && l.kind == wrapSQL && t.Intn(2) == 1 {
+			// the one failure kind of the phase: the database is unreachable
+			ph.outage = true
+		}
 		n := 0
 		for ci := range ph.plans {
 			var out []plan
@@ -737,7 +748,7 @@ func bodyLayer2(r *simrt.Run, tier string) {
 			n += len(out)
 		}
 		total += n
-		descr = append(descr, fmt.Sprintf("%s(gap=%v clients=%d calls=%d fail%%=%d think-profile=%d focus-identity=%d failure-kind=%d panics-only=%v)", phaseNames[ph.kind], ph.gap, len(ph.plans), n, ph.failPct, ph.profile, ph.ident, ph.variant, ph.panicsOnly))
+		descr = append(descr, fmt.Sprintf("%s(gap=%v clients=%d calls=%d fail%%=%d think-profile=%d focus-identity=%d failure-kind=%d panics-only=%v backend-unreachable=%v)", phaseNames[ph.kind], ph.gap, len(ph.plans), n, ph.failPct, ph.profile, ph.ident, ph.variant, ph.panicsOnly, ph.outage))
 	}
 	var idd []string
 	for _, id := range l.ids {
@@ -762,6 +773,11 @@ func bodyLayer2(r *simrt.Run, tier string) {
 			r.Sleep(ph.gap)
 		}
 		from := len(l.ids[ph.ident].w.calls)
+		if ph.outage {
+			b := l.ids[ph.ident].sql.b
+			b.setDown(b.schedDown, true)
+			r.Probe("sql-sustained-outage")
+		}
 		if len(ph.plans) == 1 {
 			for i := range ph.plans[0] {
 				p := &ph.plans[0][i]
@@ -805,7 +821,14 @@ func bodyLayer2(r *simrt.Run, tier string) {
 				w.opensClass = "does-not-open/rest-handler-panics"
 				r.Probe("rest-sustained-panics")
 			}
+			if ph.outage {
+				w.opensClass = "does-not-open/sql-backend-unreachable"
+			}
 			w.checkOpens(from, ph.spacing)
+		}
+		if ph.outage {
+			b := l.ids[ph.ident].sql.b
+			b.setDown(b.schedDown, false)
 		}
 	}
 	if t.Chance(1, 4) {
